@@ -279,4 +279,65 @@ example : FreshHistory exTree
   simp only [FreshHistory, TOp.freshFor, and_true, true_and]
   decide +kernel
 
+/-! ### the documented exception: `add_root` on a non-empty arena
+
+`Tree::add_root` inserts a node without parent and children and moves the root pointer to it; it does not touch what is
+stored already.  On the arena level (root pointer + stored nodes) the result is the *disjoint union* of the old tree's
+arena — every old node keeps index, value, links and flags, but none of them is reachable any more — and the arena of
+the new one-node tree, for which all clauses of C12 hold again (`C12_arena_*` applied to `newRootTree`).  `len()` is the
+old size plus one, the number of reachable nodes is one: this, and nothing else, is the exception. -/
+
+/-- arena-level state of `Tree<N, K>`: the root pointer and the stored nodes -/
+structure Arena (β : Type) where
+  root : Option Nat
+  nodes : List (ANode β)
+
+def ITree.arena (t : ITree β) : Arena β := ⟨some t.idx, t.toArena⟩
+
+/-- `Tree::add_root(value)`; `fresh` is the slot the slab hands out -/
+def Arena.addRoot (a : Arena β) (K : Nat) (v : β) (fresh : Nat) : Arena β :=
+  ⟨some fresh, a.nodes ++ [⟨fresh, none, List.replicate K none, true, v⟩]⟩
+
+/-- the tree the new root starts -/
+def newRootTree (K : Nat) (v : β) (fresh : Nat) : ITree β := .node fresh v (IKids.empty K)
+
+theorem IKids.empty_slotIdx (K : Nat) : (IKids.empty K : IKids β).slotIdx = List.replicate K none := by
+  induction K with
+  | zero => rfl
+  | succ k ih => simp [IKids.empty, IKids.slotIdx, ih, List.replicate_succ]
+
+theorem IKids.empty_toArenaAux (K p : Nat) : (IKids.empty K : IKids β).toArenaAux p = [] := by
+  induction K with
+  | zero => rfl
+  | succ k ih => simp [IKids.empty, IKids.toArenaAux, ih]
+
+theorem newRootTree_arena (K : Nat) (v : β) (fresh : Nat) :
+    (newRootTree K v fresh).toArena = [⟨fresh, none, List.replicate K none, true, v⟩] := by
+  simp [newRootTree, ITree.toArena, ITree.toArenaAux, IKids.empty_slotIdx, IKids.empty_toArenaAux,
+    IKids.allNone_empty]
+
+/-- `add_root` on the arena of a tree: the new root's one-node tree next to the untouched, now unreachable old tree -/
+theorem C12_add_root_exception (t : ITree β) (K : Nat) (v : β) (fresh : Nat) (hf : fresh ∉ t.indices) :
+    (t.arena.addRoot K v fresh).root = some (newRootTree K v fresh).idx ∧
+    (t.arena.addRoot K v fresh).nodes = t.toArena ++ (newRootTree K v fresh).toArena ∧
+    (t.arena.addRoot K v fresh).nodes.length = t.size + 1 ∧
+    (newRootTree K v fresh).size = 1 ∧
+    (∀ nd ∈ t.toArena, nd ∈ (t.arena.addRoot K v fresh).nodes ∧ nd.idx ≠ fresh) := by
+  refine ⟨rfl, by simp [Arena.addRoot, ITree.arena, newRootTree_arena], ?_, ?_, ?_⟩
+  · simp [Arena.addRoot, ITree.arena, C12_arena_len]
+  · have := C12_arena_len (newRootTree K v fresh)
+    rw [newRootTree_arena] at this
+    simpa using this.symm
+  · intro nd hnd
+    refine ⟨by simp [Arena.addRoot, ITree.arena, hnd], fun h => hf ?_⟩
+    rw [← C12_arena_indices t, ← h]
+    exact List.mem_map.2 ⟨nd, hnd, rfl⟩
+
+/-- the first `add_root` (empty arena): no exception, the arena is the arena of the one-node tree -/
+theorem C12_add_root_first (K : Nat) (v : β) (fresh : Nat) :
+    (Arena.addRoot (⟨none, []⟩ : Arena β) K v fresh) = (newRootTree K v fresh).arena := by
+  have h := newRootTree_arena (β := β) K v fresh
+  simp only [Arena.addRoot, ITree.arena, List.nil_append, h]
+  rfl
+
 end AV
